@@ -18,7 +18,7 @@ import (
 	"github.com/goatcms/goatcore/varutil"
 )
 
-var alphabet = []byte{' ', '\t', '\n', '"', '\\', '=', '<', 'a', 'E', 0xC3}
+var alphabet = []byte{' ', '\t', '\n', '"', '\\', '=', '<', 'a', 'E', 0xC3, '\r'}
 
 type failure struct {
 	Check string `json:"check"`
@@ -47,6 +47,10 @@ func checkTotal(in string) (f *failure, nontrivial bool) {
 	rd := strings.NewReader(in)
 	args, eof, err := varutil.ReadArguments(rd)
 	consumed := len(in) - rd.Len()
+	// the two entry points are one splitter: SplitArguments(s) is ReadArguments over s
+	if sargs, seof, serr := varutil.SplitArguments(in); (serr == nil) != (err == nil) || seof != eof || fmt.Sprintf("%q", sargs) != fmt.Sprintf("%q", args) {
+		return &failure{"split-equals-read", fmt.Sprintf("%q", in), fmt.Sprintf("SplitArguments: args=%q eof=%v err=%v; ReadArguments: args=%q eof=%v err=%v", sargs, seof, serr, args, eof, err)}, true
+	}
 	if err == nil && !eof {
 		if consumed == 0 || in[consumed-1] != '\n' {
 			return &failure{"stops-at-newline", fmt.Sprintf("%q", in), fmt.Sprintf("returned args=%q without eof after %d bytes, last consumed byte is not a newline", args, consumed)}, true
